@@ -1,7 +1,13 @@
-(* family 17: stub, to be filled *)
+(* family 17: the CRC itself (tie of the bitwise Coq definition to crcmod) *)
 From Coq Require Import ZArith List Bool.
-From SP Require Import Base.Result Base.Bytes Run.Marshal.
+From SP Require Import Base.Result Base.Bytes Base.Crc16 Run.Marshal.
 Import ListNotations.
 Open Scope Z_scope.
 
-Definition run_crc (op : Z) (a : args) : args := [[1; 97]].
+Definition run_crc (op : Z) (a : args) : args :=
+  match op with
+  | 1700 => [[0]; [crc16 (lst 0 a)]]
+  | 1701 => [[0]; [crc_upd (int 0 0 a) (int 0 1 a)]]
+  | 1702 => [[0]; [crc_from (int 0 0 a) (lst 1 a)]]
+  | _ => [[1; 97]]
+  end.
